@@ -25,6 +25,7 @@ DOC = {
         "evaluation that follows the last write of the parameters."
     ),
     "rules": {
+        "C13-R5": "the matrices that are fitted (and whose columns number_of_clps counts) are the reduced ones: relations, then constraints, then the weight applied to the reduced matrix (shared with C02-R2)",
         "C13-R1": "residuals = fun.size, free parameters = x.size, dof = residuals - free - clps, chi2 = sum(fun**2), reduced = chi2/dof, rmse = sqrt(reduced), cost = 1/2 p.p with p re-evaluated at the optimum; per-dataset rmse = sqrt(sum(res**2)/(n_model*n_global)), weighted likewise",
         "C13-R2": "covariance = (V^T[m]^T / s^2[m]) V^T[m] with m = s^2 > eps from the thin SVD of the Jacobian; standard errors = rmse*sqrt(diag) in free-parameter order; non-negative parameters: value*(exp(e)-1) if e < |log value| else |value|",
         "C13-R3": "number_of_clps counts the labels of the reduced (prepared / aligned) containers per index, and len(model labels) x len(global labels) for full models; the optimiser sums it over all groups",
@@ -288,9 +289,27 @@ def r4(ctx) -> None:
         if c.func.attr == "calculate":
             ctx.ob("C13-R4", "create_result/evaluates-written-parameters", len(c.args) == 1 and norm(c.args[0]) == "self._parameters", cr, s,
                    "groups are re-evaluated with the parameter set that was written")
+    # the standard errors of non-negative parameters are mapped back with the parameter *values*: optimum first
+    cov = [(c, lib.stmt_of(c)) for c in lib.calls(cr, nested=True) if isinstance(c.func, ast.Attribute) and c.func.attr == "calculate_covariance_matrix_and_standard_errors"]
+    ctx.sites("C13-R4", "covariance / standard error computation", len(cov), 1)
+    opt_writes = [lib.stmt_of(c) for c in lib.calls(cr) if isinstance(c.func, ast.Attribute) and c.func.attr == "set_from_label_and_value_arrays"
+                  and len(c.args) == 2 and norm(c.args[1]) == "self._optimization_result.x"]
+    for c, s_ in cov:
+        ok = any(cfg.dominates(w, s_) and w.lineno < s_.lineno for w in opt_writes) and not any(
+            w.lineno > s_.lineno for w in opt_writes)
+        ctx.ob("C13-R4", "create_result/optimum-set-before-standard-errors", ok, cr, s_,
+               "calculate_covariance_matrix_and_standard_errors reads parameter.value (log-space back-mapping of non-negative parameters): the "
+               "parameters must already hold the optimum x, not the last point the solver probed")
     op = [s for t, s in lib.stores(cr) if isinstance(t, ast.Subscript) and lib.const_str(t.slice) == "optimized_parameters"]
     ctx.ob("C13-R4", "create_result/optimized-parameters", len(op) == 1 and norm(op[0].value) == "self._parameters" and op[0].lineno > last_write_line, cr,
            op[0] if op else cr.node, "optimized_parameters is the parameter set the statistics were evaluated at")
+
+
+def r5(ctx) -> None:
+    """The clp count is the column count of the matrices actually fitted: reduction precedes weighting (shared with C02-R2)."""
+    from glint.rules import c02
+
+    c02.r2(ctx, rule="C13-R5")
 
 
 def check(ctx) -> None:
@@ -298,4 +317,4 @@ def check(ctx) -> None:
         g(ctx)
 
 
-check.groups = [r1, r2, r3, r4]
+check.groups = [r1, r2, r3, r4, r5]
